@@ -10,6 +10,7 @@ mod ops;
 mod pack;
 mod scan;
 mod slices;
+mod transfer;
 mod vect;
 
 use pg::Graph;
@@ -144,6 +145,14 @@ fn replay(c: &mut Collector, rep: &Value) {
             all.viol.retain(|k, _| *k == want);
             c.merge(all);
         }
+        "transfer" => {
+            let ctx = Ctx { only: Some(format!("transfer/{vec}")), ..Ctx::from_args("C17").0 };
+            let mut all = Collector::new();
+            transfer::run(&ctx, &mut all);
+            let want = rep["signature"].as_str().unwrap_or("").to_string();
+            all.viol.retain(|k, _| *k == want);
+            c.merge(all);
+        }
         "slices" => {
             // small space: the sub-check is re-run and only the replayed signature kept
             let ctx = Ctx { only: Some(format!("slices/{vec}")), ..Ctx::from_args("C17").0 };
@@ -213,6 +222,7 @@ fn real_main() -> i32 {
     ops::run_ops(&ctx, &ops::types_f64x2(), &mut total);
     ops::run_ops(&ctx, &ops::types_f64x4(), &mut total);
     slices::run(&ctx, &mut total);
+    transfer::run(&ctx, &mut total);
     dark::run(&ctx, &mut total);
     alphaconv::run(&ctx, &mut total);
     hue::run_hues(&ctx, &hue::types_f32x4(), &mut total);
